@@ -450,9 +450,10 @@ def register(reg):
         @reg.contract
         class C(Contract):
             key = f"{cls}.{method}"
-            props = ("C06",)
+            props = ("C06", "C07", "C05")
             trees = ("async",) if kind != "sync" else ("sync",)
             raises = ["Cancelled"] if kind != "sync" else []
+            raises_props = ("C07", "C05", "C15")  # a close that raises makes PoolByteStream.close skip the dequeue and the pass
             call_raises = []
 
             def checks(self, c):
@@ -463,7 +464,7 @@ def register(reg):
                 # the connection classes mark themselves CLOSED before they close the stream and the pool has already dropped
                 # them: a close() that can fail before it has released the descriptor leaks it for good (seed C06-w4-2)
                 closes = c.events("rt.close")
-                return [("runtime_stream_is_released_even_if_closing_fails", ("C06",), len(closes) >= 1)]
+                return [("runtime_stream_is_released_even_if_closing_fails", ("C06", "C07", "C05"), len(closes) >= 1)]
 
         C.__name__ = f"Close_{short}"
 
